@@ -126,12 +126,81 @@ func runC29(r *lib.Run) {
 				return
 			}
 			t := f.ps.Type()
+			var withs []int // builder-style key setters of a list node, exercised after everything else
+			defer func() {
+				if len(withs) == 0 || f.si == nil || len(f.elems) == 0 {
+					return
+				}
+				kfs := f.si.KeyFields()
+				cur := append([]lib.PathElem(nil), f.elems...)
+				last := cur[len(cur)-1]
+				keys := map[string]string{}
+				for k, v := range last.Keys {
+					keys[k] = v
+				}
+				for wi, mi := range withs {
+					m := t.Method(mi)
+					ki := -1
+					for i, kf := range kfs {
+						if kf != nil && "With"+kf.GoName == m.Name {
+							ki = i
+						}
+					}
+					vs := valuesFor(pool, m.Type.In(1))
+					if ki < 0 || len(vs) == 0 {
+						r.Hit("skipped:builder-method-without-key")
+						continue
+					}
+					arg := vs[(round+wi*5+mi)%len(vs)]
+					chain := f.chain + "." + m.Name
+					w := map[string]interface{}{"cfg": name, "chain": chain}
+					var out reflect.Value
+					if r.Guard("accessor", w, func() { out = f.ps.Method(mi).Call([]reflect.Value{arg})[0] }) {
+						continue
+					}
+					c, _ := lib.CanonScalar(arg, true)
+					keys[f.si.KeyNames[ki]] = lib.KeyLex(c)
+					exp := append([]lib.PathElem(nil), cur[:len(cur)-1]...)
+					nk := map[string]string{}
+					for k, v := range keys {
+						nk[k] = v
+					}
+					exp = append(exp, lib.PathElem{Name: last.Name, Keys: nk, Pos: -1})
+					r.Case(name+chain+fmt.Sprint(argStrings([]reflect.Value{arg})), true)
+					r.Hit("accessor:builder-with")
+					ps, ok := out.Interface().(ygot.PathStruct)
+					if !ok || out.IsNil() {
+						r.Violate("accessor-returned-nil", "builder", chain, w)
+						continue
+					}
+					var gp *gpb.Path
+					var errs []error
+					if r.Guard("ResolvePath", w, func() { gp, _, errs = ygot.ResolvePath(ps) }) {
+						continue
+					}
+					if len(errs) > 0 {
+						for _, c := range lib.ErrClasses(fmt.Sprint(errs)) {
+							r.Violate("resolve-error", "builder:"+c, fmt.Sprintf("%s: %v", chain, errs), w)
+						}
+						continue
+					}
+					if got, want := gnmiElems(gp), expectedElems(exp); got != want {
+						r.Violate("resolved-path-differs", "builder-key-after-resolve", fmt.Sprintf("%s resolved to %s, expected %s", chain, got, want), map[string]interface{}{"cfg": name, "chain": chain, "got": got, "want": want})
+					} else {
+						r.Hit("resolved-ok:builder")
+					}
+				}
+			}()
 			for mi := 0; mi < t.NumMethod(); mi++ {
 				m := t.Method(mi)
 				if m.Type.NumOut() != 1 || !m.Type.Out(0).Implements(pathStructT) {
 					continue
 				}
 				if f.si == nil {
+					continue
+				}
+				if strings.HasPrefix(m.Name, "With") && m.Type.NumIn() == 2 && m.Type.Out(0) == t && f.si.Field(m.Name) == nil {
+					withs = append(withs, mi)
 					continue
 				}
 				// GoStruct field this accessor corresponds to
